@@ -106,7 +106,7 @@ fn gen_all(w: &cases::World, seed: u64, thorough: bool, out: &mut dyn std::io::W
                 1 => cases::Pick::All,
                 _ => cases::Pick::Some,
             };
-            let c = cases::build_req(w, op, &mut r, pick, None);
+            let c = cases::build_req(w, op, &mut r, pick, None, None);
             run_case(w, &c, &mut bufs[1]);
             // each required query parameter left out in turn, every other round
             if round % 2 == 0 {
@@ -118,9 +118,20 @@ fn gen_all(w: &cases::World, seed: u64, thorough: bool, out: &mut dyn std::io::W
                     .collect();
                 for name in required {
                     let pick = if round % 4 == 0 { cases::Pick::Some } else { cases::Pick::All };
-                    let c = cases::build_req(w, op, &mut r, pick, Some(&name));
+                    let c = cases::build_req(w, op, &mut r, pick, Some(&name), None);
                     run_case(w, &c, &mut bufs[1]);
                 }
+            }
+        }
+    }
+    // one integer / boolean parameter given a text its documented schema
+    // refuses: the framework's extractor error must be the documented one
+    let ill_rounds = if thorough { 12 } else { 2 };
+    for _ in 0..ill_rounds {
+        for op in &w.ops {
+            for name in cases::illtypable(w, op) {
+                let c = cases::build_req(w, op, &mut r, cases::Pick::Some, None, Some(&name));
+                run_case(w, &c, &mut bufs[1]);
             }
         }
     }
